@@ -26,7 +26,7 @@ def plan(ctx):
     from sqv.harness import txt
     for i, prog in enumerate(txt.PROGRAMS):
         obs.append(Obligation(f"txt.layout_rewrite.p{i}", "xh", "txt", "layout_rewrite", param={"program": i}, timeout=T * 3,
-                              bounds="one of 20 concrete programs (strings and comments containing brackets/quotes/#, nested multi-line literals, %..% names); "
+                              bounds="one of 21 concrete programs (one with several hundred blank statements) (strings and comments containing brackets/quotes/#, nested multi-line literals, %..% names); "
                                      "rewrite kind symbolic (finite domain chosen by the solver); every applicable position of that rewrite then tried natively on the real lexer+parser within the path",
                               desc=f"program {i}: 18 rewrites (space/tab at a token boundary, a line break for any blank inside brackets, comments before a line end and as whole lines, line break after a token inside brackets, CRLF, ; <-> newline, blank statements, trailing comma in calls and lists, parentheses around literals and operand names, . -> | for method calls with arguments) at every applicable position: parse(base) == parse(rewritten)"))
     obs += lxc_obligations(ctx, ['blank', 'crlf', 'reference'])
